@@ -263,6 +263,13 @@ def _parts_for(shape_name, modes, E=("C", "H"), tag=""):
         if m == 4:
             for jq in (-1, 0, 1):
                 for qq in (-1, 0, 1):
+                    if len(E) > 2:
+                        # three elements: split the merge-result space as well (charge and oxygen count of jj)
+                        for jjq in (-1, 0, 1):
+                            for jjo in (0, 1, 2):
+                                out.append(("pipe[%s|%sm=%d,jq=%d,qq=%d,jjq=%d,jjO=%d]" % (shape_name, tag, m, jq, qq, jjq, jjo),
+                                            {"shape": shape, "E": list(E), "K": K, "fix": {"m1": m, "jq": jq, "qq": qq, "jjq": jjq, "jjO": jjo}}, "prop"))
+                        continue
                     out.append(("pipe[%s|%sm=%d,jq=%d,qq=%d]" % (shape_name, tag, m, jq, qq),
                                 {"shape": shape, "E": list(E), "K": K, "fix": {"m1": m, "jq": jq, "qq": qq}}, "prop"))
         else:
